@@ -31,6 +31,7 @@ func (c *Ctx) references(scs []*Scenario, cfgs func(*Scenario) []Cfg) map[refKey
 		for _, cfg := range cfgs(sc) {
 			sp := soloSpec(fmt.Sprintf("ref/%s/%s", sc.Name, cfg), sc, cfg)
 			sp.Order.Pin = nil
+			sp.Budget = 3000000000
 			specs = append(specs, sp)
 			refs = append(refs, &Ref{Spec: sp, Sc: sc, Cfg: cfg})
 		}
